@@ -1045,6 +1045,41 @@ example : Rules.ConvertIndexToField.apply (gApi C08.toyN C08.toyE) indexC08Sampl
       .mk [] (some (.ret [.field (.var "t") "ab"])) := by rfl
   exact ⟨h1.trans h2.symm, h2⟩
 
+/-- `compute_expression` with the real evaluator, guarded (`gApi`, which folds to `nil` / booleans / strings — numbers
+are not folded: `to_expression` of a number needs round-trip laws that `C08.Agree` does not give — and no F5
+rewrite): EVERY program. -/
+theorem rule_refines_compute_expression_upto_C08_guarded {N : NumOps} {E : Evaluator.EvalOps N}
+    (A : C08.Agree N E) (b : Block) (ρ : ExtOracle N) (n : Nat) (externs : List String) :
+    runProgram ρ n externs b = .timeout ∨
+      runProgram ρ n externs (Rules.ComputeExpression.Whole.applyG (gApi N E) b) = runProgram ρ n externs b :=
+  Rules.ComputeExpression.Whole.applyG_upto_at (gApi_total A) (Rules.ComputeExpression.gApi_fold A)
+    Rules.ComputeExpression.gApi_coherent Rules.ComputeExpression.gApi_closed b ρ n externs
+
+/-- `compute_expression` as the driver runs it, on every program on which it agrees with that guarded rule. -/
+theorem rule_refines_compute_expression_upto_C08 {N : NumOps} {E : Evaluator.EvalOps N}
+    (A : C08.Agree N E) (b : Block)
+    (h : Rules.ComputeExpression.Whole.applyG (gApi N E) b = Rules.ComputeExpression.apply (c08Api N E) b)
+    (ρ : ExtOracle N) (n : Nat) (externs : List String) :
+    runProgram ρ n externs b = .timeout ∨
+      runProgram ρ n externs (Rules.ComputeExpression.apply (c08Api N E) b) = runProgram ρ n externs b := by
+  rw [← h]; exact rule_refines_compute_expression_upto_C08_guarded A b ρ n externs
+
+/-- `return 1 < 2, "a" .. "b", nil and f()` -/
+def computeC08Sample : Block :=
+  .mk [] (some (.ret [.bin .lt (.num 1) (.num 2), .bin .concat (.str [97]) (.str [98]),
+    .bin .and .nil (.call (.var "f") none .tuple [])]))
+
+-- non-vacuity: a comparison and a concatenation are folded, a decided `and` is selected (all outside `litApi`)
+example : Rules.ComputeExpression.Whole.applyG (gApi C08.toyN C08.toyE) computeC08Sample =
+      Rules.ComputeExpression.apply (c08Api C08.toyN C08.toyE) computeC08Sample ∧
+    Rules.ComputeExpression.apply (c08Api C08.toyN C08.toyE) computeC08Sample =
+      .mk [] (some (.ret [.true, .str [97, 98], .nil])) := by
+  have h1 : Rules.ComputeExpression.Whole.applyG (gApi C08.toyN C08.toyE) computeC08Sample =
+      .mk [] (some (.ret [.true, .str [97, 98], .nil])) := by rfl
+  have h2 : Rules.ComputeExpression.apply (c08Api C08.toyN C08.toyE) computeC08Sample =
+      .mk [] (some (.ret [.true, .str [97, 98], .nil])) := by rfl
+  exact ⟨h1.trans h2.symm, h2⟩
+
 /-! ### … with ALLOCATING conditions (`while not {} do`, `if {} then`) — stage 4 unified (`Sem.HeapU`)
 
 `{}` is "pure" and truthy for the evaluator, so the rules drop its evaluation; the dropped evaluation allocates a
